@@ -375,6 +375,7 @@ func (h *hintMgr) trydump(chunkID int, dumplast bool) (silence int64) {
 	ck := h.chunks[chunkID]
 	ck.Lock()
 	defer ck.Unlock()
+	vhook.PointI("hint.trydump.locked", int64(chunkID), 0)
 	splits := ck.splits
 	l := len(splits)
 
